@@ -115,6 +115,14 @@ add("C17", "Prose.tla enumerates every case (write/read x 9 prefix classes x 4 a
     "DESIGN.md 5.5, 8 C17")
 
 
+add("C16", "Body.tla: TLC enumerates every body up to 4 statements over the statement tokens and checks Verbatim / ReturnOnce for the structural "
+    "design, and refutes them for the transcribed positional special cases (leading string expression, argument_parser assignment, trailing return). "
+    "Every body (all up to length 2, a sample / all of length 3-4) is rendered to real statements, pushed through parse + emit to the same kind and "
+    "name, and through emit.class_(emit_call=True); TLC validates the observed token sequence and the set of rewritten name labels (BodyTrace.tla).",
+    "Trusted: TLC, the statement templates and the classifier (vf/body_check.py). Bounds: bodies <= 4 statements over 10 templates, 2 parameters.",
+    "TLA+ spec (Body.tla token-sequence model) model-checked with TLC; real parse+emit runs validated by TLC (BodyTrace.tla)", "DESIGN.md 5.4, 8 C16")
+
+
 def main():
     props = [json.loads(l)["id"] for l in open(os.path.join(HERE, "properties.jsonl"))]
     m = {
